@@ -117,8 +117,15 @@ def f_blocks_order(a):
 
 
 def conc(tp, v, fresh=True):
-    """Concretise a model value as an instance of the shipped class tp."""
+    """Concretise a model value as an instance of the shipped class tp (fresh=False: the class's own zero / one
+    objects where the value is zero / one - the objects every accumulator in the library starts from)."""
     from genlm.grammar import semiring as S
+    if not fresh and tp not in ("Float", "FloatF"):
+        cls = getattr(S, tp)
+        if absr(tp, cls.zero) == v:
+            return cls.zero
+        if absr(tp, cls.one) == v:
+            return cls.one
     if tp == "Boolean":
         return S.Boolean(bool(v)) if fresh else (S.Boolean.one if v else S.Boolean.zero)
     q = lambda r: Fraction(r[0], r[1])
